@@ -320,3 +320,36 @@ theorem reload_norm_eq (g : Gslb) (hg : (g.subs.map (·.name)).Nodup) (conf conf
   by_cases hb : (availNum (List.mergeSort conf' subLe) == 1) = true <;> simp [hb]
 
 end BfeVerif.C14
+
+/-! ### SLB -/
+namespace BfeVerif.C14
+
+def asG (s : Slb) : Gslb := { subs := s.backends, total := 0, single := false, avail := 0 }
+
+theorem slbUpdate_eq (s : Slb) (conf : List Sub) :
+    slbUpdate s conf = { backends := keptOf (asG s) conf ++ freshOf (asG s) conf, sorted := false } := rfl
+
+theorem slbUpdate_perm (s : Slb) (conf : List Sub) (hs : (s.backends.map (·.name)).Nodup)
+    (hn : (conf.map (·.name)).Nodup) : (slbUpdate s conf).backends.Perm conf := by
+  rw [slbUpdate_eq]
+  exact reload_list_perm (asG s) conf hs hn
+
+theorem slbStep_nodup (s : Slb) (op : SlbOp) (hs : (s.backends.map (·.name)).Nodup)
+    (hop : ∀ c, op = .update c → (c.map (·.name)).Nodup) : ((slbStep s op).backends.map (·.name)).Nodup := by
+  cases op with
+  | update c => exact names_nodup_of_perm (slbUpdate_perm s c hs (hop c rfl)) (hop c rfl)
+  | sticky h =>
+    simp only [slbStep, slbSticky, slbEnsureSorted]
+    split
+    · exact hs
+    · exact names_nodup_of_perm (List.mergeSort_perm _ subLe) hs
+
+theorem slbRun_nodup : ∀ (ops : List SlbOp) (s : Slb), (s.backends.map (·.name)).Nodup →
+    (∀ c, SlbOp.update c ∈ ops → (c.map (·.name)).Nodup) → ((slbRun s ops).backends.map (·.name)).Nodup
+  | [], _, hs, _ => hs
+  | op :: rest, s, hs, hops => by
+    simp only [slbRun, List.foldl_cons]
+    exact slbRun_nodup rest (slbStep s op) (slbStep_nodup s op hs fun c hc => hops c (by simp [hc]))
+      fun c hc => hops c (by simp [hc])
+
+end BfeVerif.C14
